@@ -1188,11 +1188,15 @@ impl TransportsSender {
                         .v4_iter_mut()
                         .find(|s| s.is_valid_send_addr(*src, dst_addr))
                     {
+                        #[cfg(feature = "verif-hooks")]
+                        crate::verif_hooks::transports::select_ip(sender.verif_config(), "match");
                         return Pin::new(sender).poll_send(cx, *dst_addr, *src, transmit);
                     }
                     if let Some(sender) = self.ip.v4_default_mut()
                         && sender.is_valid_default_addr(*src, dst_addr)
                     {
+                        #[cfg(feature = "verif-hooks")]
+                        crate::verif_hooks::transports::select_ip(sender.verif_config(), "default");
                         return Pin::new(sender).poll_send(cx, *dst_addr, *src, transmit);
                     }
                 }
@@ -1202,11 +1206,15 @@ impl TransportsSender {
                         .v6_iter_mut()
                         .find(|s| s.is_valid_send_addr(*src, dst_addr))
                     {
+                        #[cfg(feature = "verif-hooks")]
+                        crate::verif_hooks::transports::select_ip(sender.verif_config(), "match");
                         return Pin::new(sender).poll_send(cx, *dst_addr, *src, transmit);
                     }
                     if let Some(sender) = self.ip.v6_default_mut()
                         && sender.is_valid_default_addr(*src, dst_addr)
                     {
+                        #[cfg(feature = "verif-hooks")]
+                        crate::verif_hooks::transports::select_ip(sender.verif_config(), "default");
                         return Pin::new(sender).poll_send(cx, *dst_addr, *src, transmit);
                     }
                 }
@@ -1219,6 +1227,8 @@ impl TransportsSender {
                     .filter(|s| s.is_valid_send_addr(url, endpoint_id))
                 {
                     has_valid_sender = true;
+                    #[cfg(feature = "verif-hooks")]
+                    crate::verif_hooks::transports::select_relay(url, endpoint_id);
                     match sender.poll_send(cx, url.clone(), *endpoint_id, transmit) {
                         Poll::Pending => {}
                         Poll::Ready(res) => return Poll::Ready(res),
@@ -1231,6 +1241,8 @@ impl TransportsSender {
             FourTuple::Custom { remote, local } => {
                 for sender in &mut self.custom {
                     if sender.is_valid_send_addr(remote) {
+                        #[cfg(feature = "verif-hooks")]
+                        crate::verif_hooks::transports::select_custom(remote, local.as_ref());
                         match sender.poll_send(cx, remote, local.as_ref(), transmit) {
                             Poll::Pending => {}
                             Poll::Ready(res) => return Poll::Ready(res),
@@ -1243,6 +1255,8 @@ impl TransportsSender {
         // We "blackhole" data that we have not found any usable transport for on
         // to make sure the QUIC stack picks up that currently this data does not arrive.
         trace!(%network_path, "no valid transport available");
+        #[cfg(feature = "verif-hooks")]
+        crate::verif_hooks::transports::select_none("no-valid-transport");
         Poll::Ready(Ok(()))
     }
 }
@@ -1367,6 +1381,19 @@ impl Sender {
     }
 }
 
+/// verif-hooks: a [`Sender`] exactly as [`Transport::create_sender`] builds it, from a stored
+/// clone of the [`TransportsSender`] (see `crate::verif_hooks::transports`).
+#[cfg(feature = "verif-hooks")]
+impl Sender {
+    pub(crate) fn verif_new(sock: Arc<Socket>, sender: TransportsSender) -> Self {
+        Self { sock, sender }
+    }
+
+    pub(crate) fn verif_mapped_addrs(&self) -> crate::socket::remote_map::MappedAddrs {
+        self.sock.mapped_addrs.clone()
+    }
+}
+
 impl noq::UdpSender for Sender {
     fn poll_send(
         self: Pin<&mut Self>,
@@ -1385,6 +1412,8 @@ impl noq::UdpSender for Sender {
             MultipathMappedAddr::Mixed(mapped_addr) => {
                 let Some(endpoint_id) = self.sock.mapped_addrs.endpoint_addrs.lookup(&mapped_addr)
                 else {
+                    #[cfg(feature = "verif-hooks")]
+                    crate::verif_hooks::transports::select_none("unknown-endpoint-mapped-addr");
                     error!(dst = ?mapped_addr, "unknown NodeIdMappedAddr, dropped transmit");
                     return Poll::Ready(Ok(()));
                 };
@@ -1397,6 +1426,8 @@ impl noq::UdpSender for Sender {
                         "oops, flub didn't think this would happen");
                 }
 
+                #[cfg(feature = "verif-hooks")]
+                crate::verif_hooks::transports::select_endpoint(&endpoint_id);
                 match self.sock.try_send_remote_state_msg(
                     endpoint_id,
                     super::RemoteStateMessage::SendDatagram(
@@ -1432,6 +1463,8 @@ impl noq::UdpSender for Sender {
                 {
                     Some((url, endpoint_id)) => FourTuple::Relay { url, endpoint_id },
                     None => {
+                        #[cfg(feature = "verif-hooks")]
+                        crate::verif_hooks::transports::select_none("unknown-relay-mapped-addr");
                         error!("unknown RelayMappedAddr, dropped transmit");
                         return Poll::Ready(Ok(()));
                     }
@@ -1455,6 +1488,8 @@ impl noq::UdpSender for Sender {
                         }
                     }
                     None => {
+                        #[cfg(feature = "verif-hooks")]
+                        crate::verif_hooks::transports::select_none("unknown-custom-mapped-addr");
                         error!("unknown CustomMappedAddr, dropped transmit");
                         return Poll::Ready(Ok(()));
                     }
